@@ -119,7 +119,11 @@ def overlaps_taint(rep, idx):
                 in_raise = True
         if in_raise:
             continue
-        ok = f.name == "prepare" and isinstance(p, ast.Compare)
+        # the limit is compared with a number of registers sharing a chunk, in prepare() or a helper it is split into; as the
+        # property of a getter it may also simply be returned
+        is_cmp_with_len = isinstance(p, ast.Compare) and any(isinstance(o, ast.Call) and isinstance(o.func, ast.Name) and o.func.id == "len"
+                                                             for o in [p.left] + list(p.comparators))
+        ok = (f.name == "prepare" and isinstance(p, ast.Compare)) or is_cmp_with_len or (f.is_property and isinstance(p, ast.Return))
         if not ok:
             bad.append((f, n))
     site = sh.site
